@@ -52,7 +52,7 @@ def run(ctx):
         seen = set()
         for c in calls:
             b = c[2][0][1]
-            ck = T.kwargs_of(c).get('chklen')
+            ck = T.call_arg(c, 'chklen', 2)
             want = 2 + b // 4
             ok = ck is not None and ck[0] == '+' and T.C(-want) in ck[1]
             seen.add(b)
